@@ -596,10 +596,8 @@ def r6_whitespace_merge(rep, src, loop):
             if kind not in ('expr', 'loop'):
                 problems.append('%s: the look-ahead lines are not appended to the token with an empty separator' % mname)
                 continue
-            # element transform: var, var + const, const + var ...
-            suffix = ''
-            if elt is not None:
-                e2 = paths.simplify(elt, folder)
+            # element transform: var, var + const -- or one of these chosen by a test on the line (`x if x.endswith(c) else x + c`)
+            def suffix_of(e2):
                 parts = []
 
                 def flat(x):
@@ -612,7 +610,35 @@ def r6_whitespace_merge(rep, src, loop):
                 if not parts or not (isinstance(parts[0], ast.Name) and parts[0].id == var) or \
                         not all(isinstance(q, ast.Constant) and isinstance(q.value, str) for q in parts[1:]):
                     raise AnalysisError('%s: merged element %s is not <line> + <constant>' % (f.site, norm(e2)))
-                suffix = ''.join(q.value for q in parts[1:])
+                return ''.join(q.value for q in parts[1:])
+            suffix = ''
+            pieces = None
+            if elt is not None:
+                e2 = paths.simplify(elt, folder)
+                if isinstance(e2, ast.IfExp):
+                    Lc = strlang.pred_lang(e2.test, var, alpha, atom=regex_atom(var))
+                    pieces = [(Lp.intersect(Lc), suffix_of(e2.body)), (Lp.minus(Lc), suffix_of(e2.orelse))]
+                    pieces = [(d_, s_) for d_, s_ in pieces if not d_.is_empty()]
+                    if len({s_ for _d, s_ in pieces}) <= 1:
+                        suffix = pieces[0][1] if pieces else ''
+                        pieces = None
+                else:
+                    suffix = suffix_of(e2)
+            if pieces is not None:
+                # different additions for different lines
+                for d_, s_ in pieces:
+                    if not mode and s_ != '':
+                        problems.append('%s: %r is added to the merged line %r, so the token text is not the input text (the tokens no longer tile the input)' % (mname, s_, d_.witness()))
+                    if mode and s_ != '\n' and not d_.minus(ends_nl).is_empty():
+                        d_ = d_.minus(ends_nl)
+                        problems.append('in the no-newline input mode the merged look-ahead line %r is joined without its line end (appended text is <line> + %r)' % (d_.witness(), s_))
+                if mode:
+                    w = Lp.intersect(ends_nl).witness()
+                    if w is not None:
+                        problems.append('in the no-newline input mode the look-ahead accepts a line that already ends with a newline (e.g. %r), '
+                                        'which the main loop reports as inconsistent input' % w)
+                tokens_by_mode.setdefault(mode, []).append((Lp, suffix))
+                continue
             if not mode:
                 if suffix != '':
                     problems.append('%s: %r is added to every merged line, so the token text is not the input text' % (mname, suffix))
